@@ -491,6 +491,16 @@ def history_program(histories):
             elif op[0] == "sub":
                 init = "None" if op[3] is None else "Some({ let l = loc(%s); Signal::derive(move || l) })" % json.dumps(op[3])
                 lines.append("            let %s = { let o = Owner::new(); let c = o.with(|| { provide_context(%s); init_i18n_subcontext_with_options::<Locale>(%s, None, None, Some(langs(Some(\"en\")))) }); std::mem::forget(o); c };" % (op[2], op[1], init))
+            elif op[0] == "provider":
+                # <I18nSubContextProvider> rendered in the *current* owner, below the parent context provided there;
+                # the name is the context its children see
+                lines.append("            let %s = { provide_context(%s); let slot = std::sync::Arc::new(std::sync::Mutex::new(None)); let s2 = slot.clone(); "
+                             "let ch: leptos::children::TypedChildren<()> = leptos::children::ToChildren::to_children(move || { *s2.lock().unwrap() = Some(leptos_i18n::context::use_i18n_context::<Locale>()); }); "
+                             "let v = leptos_i18n::context::i18n_sub_context_provider_inner::<Locale, _>(ch, None, None, None, Some(langs(Some(\"en\")))); std::mem::forget(v); settle(); "
+                             "let c: leptos_i18n::I18nContext<Locale> = slot.lock().unwrap().expect(\"children ran\"); c };" % (op[2], op[1]))
+            elif op[0] == "ctx_here":
+                # what a sibling of the provider (same owner) gets from use_i18n_context
+                lines.append("            let %s = leptos_i18n::context::use_i18n_context::<Locale>();" % op[1])
         lines.append("        });")
         lines.append("        std::mem::forget(owner);")
         lines.append("    }")
@@ -534,6 +544,12 @@ def simulate(ops):
         elif op[0] == "sub":
             cell[op[2]] = "cell_" + op[2]
             val["cell_" + op[2]] = op[3] if op[3] is not None else val[cell[op[1]]]
+        elif op[0] == "provider":
+            cell[op[2]] = "cell_" + op[2]
+            val["cell_" + op[2]] = val[cell[op[1]]]
+            cell["__here__"] = cell[op[1]]      # the provider's own context is visible to its children only
+        elif op[0] == "ctx_here":
+            cell[op[1]] = cell["__here__"]
     return out
 
 
@@ -629,6 +645,10 @@ def run_histories(histories):
 
 def native_histories(tier, seed):
     hs = random_histories(tier, seed)
+    # the provider component: its sub-context is seen by its children, not by what the caller renders next to it
+    for setter in ("set", "setu"):
+        hs.append([("provider", "a", "p1"), ("ctx_here", "h1"), (setter, "h1", "fr"), ("get", "p1"), ("get", "a"), (setter, "p1", "de"), ("get", "a"), ("get", "h1"), ("get", "p1")])
+        hs.append([(setter, "a", "de"), ("provider", "a", "p1"), ("get", "p1"), ("provider", "a", "p2"), ("ctx_here", "h1"), (setter, "p2", "fr"), ("get", "p1"), ("get", "h1"), (setter, "h1", "es"), ("get", "p2"), ("get", "p1"), ("get", "a")])
     got = run_histories(hs)
     bad = []
     for i, ops in enumerate(hs):
